@@ -91,7 +91,10 @@ def facts_dir(tier="quick", root=None):
     key = "%s-%s-%s" % (th, tools, "all" if all_targets else "lib")
     os.makedirs(CACHE, exist_ok=True)
     out = os.path.join(CACHE, "facts", key)
-    lock = open(os.path.join(CACHE, "extract.lock"), "w")
+    # SSL_WORKER: parallel evaluation of many scratch copies (tools/recheck_detection.py) - one lock and one cargo target
+    # directory per worker; the registered checks never set it
+    worker = os.environ.get("SSL_WORKER", "")
+    lock = open(os.path.join(CACHE, "extract%s.lock" % worker), "w")
     fcntl.flock(lock, fcntl.LOCK_EX)
     try:
         done = os.path.join(out, "DONE")
@@ -101,7 +104,7 @@ def facts_dir(tier="quick", root=None):
             raise ExtractionError("driver not built: run MANIFEST.setup_cmd (./setup.sh)")
         shutil.rmtree(out, ignore_errors=True)
         os.makedirs(out)
-        tgt = os.path.join(CACHE, "target-%s" % ("all" if all_targets else "lib"))
+        tgt = os.path.join(CACHE, "target-%s%s" % ("all" if all_targets else "lib", worker))
         crates = ["simplesl", "simplesl_parser", "simplesl_macros"]
         secs = _run_driver(root, out, tgt, all_targets, crates, os.path.join(out, "cargo.log"))
         need = ["simplesl.rlib.lib.json", "simplesl_parser.rlib.lib.json", "simplesl.executable.main.json"]
@@ -119,7 +122,7 @@ def facts_dir(tier="quick", root=None):
             raise ExtractionError("the tree changed while facts were being extracted")
         with open(done, "w") as fh:
             json.dump({"tree_hash": th, "extract_s": secs, "all_targets": all_targets}, fh)
-        _prune(os.path.join(CACHE, "facts"), keep=6)
+        _prune(os.path.join(CACHE, "facts"), keep=24 if worker else 6)
         return out, th
     finally:
         fcntl.flock(lock, fcntl.LOCK_UN)
@@ -141,8 +144,11 @@ def _prune(d, keep):
         ents = sorted((os.path.getmtime(os.path.join(d, e)), e) for e in os.listdir(d))
     except OSError:
         return
-    for _, e in ents[:-keep]:
-        shutil.rmtree(os.path.join(d, e), ignore_errors=True)
+    import time
+    now = time.time()
+    for mt, e in ents[:-keep]:
+        if now - mt > 1800:     # a younger entry may be in use by a check running concurrently on another tree
+            shutil.rmtree(os.path.join(d, e), ignore_errors=True)
 
 
 def fixture_facts():
